@@ -7,7 +7,7 @@ _RULE = ("implementation-driven random gate-level histories of RefCount (SetCont
          "3 times out of 4, else its usual value), store sections, root contexts cancelled by their owner, "
          "Wait, Resolve, WaitWithReleased (+ the lines of ResolveWithReleased replicated), ResolveWithReleased and Access consumers with cancellation, "
          "release through the function Resolve/ResolveWithReleased returned, Access callbacks returning before and after an invalidation "
-         "incl. the ABA shape in a configuration where the resolver returns a constant value) + corpus; distinct = distinct event sequence; non-trivial = >= 10 events")
+         "incl. the ABA shape in a configuration where the resolver returns a constant value; the watcher goroutine of an Access callback parked between its wake-up and its cbCancel(), callbacks returning inside that window; successful resolver returns with the empty value, with and without release function) + corpus; distinct = distinct event sequence; non-trivial = >= 10 events")
 
 
 def _parse(ev, o):
@@ -47,6 +47,8 @@ _ASSUME = ["C09's progress clause reads 'has a context' as: a context is install
            "at most one ResolveWithReleased call whose reference the harness does not know yet is in flight at a time (the goroutine spawned by its callback is attributed to it)",
            "consumer kind 1 = WaitWithReleased + the six lines of ResolveWithReleased replicated in the harness; kind 3 = Resolve, kind 4 = ResolveWithReleased themselves (same model as kinds 0 / 1)",
            "the reference of an Access call is private to it (no other actor calls its Release)",
+           "Access's watcher goroutine (cancels the callback's context when the value changes) is a schedule point of its own (hook site 5, notes/refcount_site5_hook.patch): 'cancelled promptly' is judged once that goroutine has run; against a /repo without the hook the harness reports the watcher's step right after the event that woke it (counter hook.site5_missing_watcher_reported_virtually) and cuts corpus histories that need the window (hook.site5_missing_history_cut)",
+           "the k-th parked asynchronous released() carries its generation in the event (6 k g): the harness reads it off the nonce the hook reports; the model refuses a wrong g",
            "the nonce does not wrap (2^32 restarts)"]
 _TECH = "Coq inductive invariant over a gate-level interleaving model + schedule-controlled differential correspondence (synctest) against the Go code"
 
@@ -118,7 +120,7 @@ PROPS = {
                          "hands the replacement to the callback or returns the resolver's error; at rest with a stored value a running Access is "
                          "inside its callback; Canceled for a cancelled caller. The seeded ABA variant is a _refuted theorem. Monitors on the "
                          "implementation's observations: clauses 10.1-10.3 as before; 10.4 value passed = current value; 10.5 invalidated => "
-                         "callback context cancelled; 10.6 callback result returned only from an unraced invocation, re-invocation at quiescence; "
+                         "callback context cancelled (judged once the watcher goroutine of the invocation is not parked before its cbCancel()); 10.6 callback result returned only from an invocation that was not invalidated (the invalidation itself counts, not the cancellation), re-invocation at quiescence; "
                          "10.7 resolver error / Canceled returned as such. Monitors tied to the model for ALL event lists and EVERY configuration, all clauses "
                          "(model_satisfies_monitors, model_run_check_clean: the full statement): 10.1-10.3 (invariants: every value a Wait/Resolve/"
                          "ResolveWithReleased consumer was given is the empty value or a finished goroutine's; a WaitWithReleased consumer that was given a "
